@@ -122,9 +122,7 @@ def handle (toks : List String) : String :=
          | .error e => showErr e)
       else if op = "all" then
         -- check on the raw dict, setup_config, and the property predicate on the normalised dict
-        let v := match normalise c with
-          | .ok c' => if validB c' then "1" else "0"
-          | .error _ => "-"
+        let v := if validB (normalise c) then "1" else "0"
         s!"{showUnit (check c)} | {showSetup (setupConfig c)} | {v}"
       else "bad-op"
   | [] => "bad-op"
